@@ -27,11 +27,13 @@ Act(e) == CASE e.op = "setC" -> SetC(e.arg)
             [] e.op = "setShape" -> SetShape(e.arg)
             [] e.op = "update" -> Update
             [] e.op = "compute" -> Compute
+            [] e.op \in {"otherEig", "otherC", "otherStress"} -> OtherObject
 Mismatch(e) ==
        (IF dC' # <<e.obs.dC[1], e.obs.dC[2]>> THEN {"C16:matrix-stiffness-in-force=rotate(current rotation, current stiffness)"} ELSE {})
   \cup (IF dP' # <<e.obs.dP[1], e.obs.dP[2]>> THEN {"C16:precipitate-stiffness-in-force=rotate(current rotation, current stiffness)"} ELSE {})
   \cup (IF shape' # e.obs.shape THEN {"C16:description-in-force"} ELSE {})
   \cup (IF dS'[1] # e.obs.sId \/ (dS'[1] # Zero /\ Angle(dS'[2]) # e.obs.sAngle) THEN {"ext:applied-stress-as-modelled"} ELSE {})
+  \cup (IF eig' # e.obs.eId THEN {"C16:eigenstrain-in-force=last-supplied-to-this-object"} ELSE {})
   \cup (IF e.op = "compute" /\ e.cmp # "eq" THEN {"C16:energy-independent-of-setter-order"} ELSE {})
   \cup (IF rawC' # Zero /\ ~(dC' = <<rawC', rot'>> /\ dP' = (IF rawP' # Zero THEN <<rawP', rotP'>> ELSE <<rawC', rot'>>)) THEN {"spec:DerivedCurrent"} ELSE {})
 TStep == /\ l <= Len(Tr) /\ Ev.e = "op" /\ Act(Ev) /\ UNCHANGED nops
